@@ -36,7 +36,11 @@ type c10Scenario struct {
 	// outgoing lines like any other
 	PingsAfter int `json:"pings_after"`
 	NPings     int `json:"n_pings"`
-	Lines    []c10Line `json:"lines"`
+	// CapNeg: capability negotiation is enabled, so registration is CAP LS, NICK, USER, and the server of
+	// this scenario never answers any of it (no capability list, no welcome): lines sent meanwhile are
+	// charged and held back like any other
+	CapNeg bool      `json:"cap_negotiation,omitempty"`
+	Lines  []c10Line `json:"lines"`
 
 	createdLo, createdHi time.Time // set by the run: when the client (and with it the penalty clock) was created
 }
@@ -63,6 +67,14 @@ func genC10(t *rapid.T, maxLines int, idx int) *c10Scenario {
 	n := rapid.IntRange(3, maxLines).Draw(t, "nlines")
 	for i := 0; i < n; i++ {
 		sc.Lines = append(sc.Lines, c10Line{Len: rapid.SampledFrom([]int{0, 1, 50, 120, 300, 500}).Draw(t, "len"), GapMS: rapid.SampledFrom([]int{0, 0, 0, 500, 2500, 6000}).Draw(t, "gap_ms")})
+	}
+	sc.CapNeg = idx%6 == 1
+	if idx%12 == 0 {
+		// CAP LS, NICK, USER and a 400-byte line bring the penalty to 11.7 s: the second 400-byte line must
+		// be held back for its 5.36 s although the server has not welcomed the client yet
+		sc.CapNeg = true
+		sc.Lines = []c10Line{{Len: 400}, {Len: 400}, {Len: 1}}
+		return sc
 	}
 	if idx%12 == 8 {
 		// NICK, USER and three 120-byte lines: the second is held back (3 s), the third would be next; the
@@ -109,7 +121,11 @@ func genC10(t *rapid.T, maxLines int, idx int) *c10Scenario {
 // runC10One executes one scenario and returns the observations for all lines
 // on the wire (registration lines included) in wire order.
 func runC10One(sc *c10Scenario) ([]c10Obs, *Violation) {
-	tc := newTestClient(cliOpts{Flood: sc.FloodOff})
+	tc := newTestClient(cliOpts{Flood: sc.FloodOff, Configure: func(cfg *client.Config) { cfg.EnableCapabilityNegotiation = sc.CapNeg }})
+	nreg := 2
+	if sc.CapNeg {
+		nreg = 3
+	}
 	sc.createdLo, sc.createdHi = tc.CreatedLo, tc.CreatedHi
 	defer tc.shutdown()
 	var mu sync.Mutex
@@ -120,7 +136,7 @@ func runC10One(sc *c10Scenario) ([]c10Obs, *Violation) {
 		return nil, violationf("C10", "connect: %v", err)
 	}
 	conn := tc.conn()
-	total := 2
+	total := nreg
 	heldLine := ""
 	regStarts := []time.Time{regStart}
 	disc := make(chan struct{}, 2)
@@ -154,7 +170,7 @@ func runC10One(sc *c10Scenario) ([]c10Obs, *Violation) {
 				return nil, violationf("C10", "reconnect: %v", err)
 			}
 			conn = tc.conn()
-			total = 2
+			total = nreg
 		}
 		if sc.HoldCloseAt >= 0 && k == sc.HoldCloseAt+1 {
 			// everything but the last line issued is on the wire; that one is being held back
@@ -175,7 +191,7 @@ func runC10One(sc *c10Scenario) ([]c10Obs, *Violation) {
 				return nil, violationf("C10", "reconnect: %v", err)
 			}
 			conn = tc.conn()
-			total = 2
+			total = nreg
 		}
 		if k == sc.ToggleAt {
 			if !waitWire(total) {
